@@ -16,12 +16,13 @@ def own_logit(x, eps):
 
 
 class INSMonitors:
-    def __init__(self, model, stop_at_iteration=None, max_problems=40, iteration_budget=200):
+    def __init__(self, model, stop_at_iteration=None, max_problems=12, iteration_budget=200):
         self.model = model
         self.problems = []
         self.counts = {}
         self.max_problems = max_problems
         self.abort_after = 6
+        self.abort_props = None
         self.abort_pending = False
         self.stop_at_iteration = stop_at_iteration
         self.iteration_budget = iteration_budget
@@ -39,9 +40,10 @@ class INSMonitors:
         self.counts[k] = self.counts.get(k, 0) + n
 
     def problem(self, prop, key, detail):
-        if len(self.problems) < self.max_problems:
+        if sum(1 for q in self.problems if q[0] == prop) < self.max_problems:  # cap per property, so one property cannot crowd out another
             self.problems.append((prop, key, str(detail)[:400]))
-        self.abort_pending = len(self.problems) >= self.abort_after
+        # only witnesses of the properties the running check decides may cut the run short
+        self.abort_pending = sum(1 for q in self.problems if self.abort_props is None or q[0] in self.abort_props) >= self.abort_after
 
     def _patch(self, cls, name, factory):
         orig = cls.__dict__.get(name)
